@@ -601,6 +601,12 @@ func (e *Bounds) convert(x *ssa.Convert, fr *frame, k Kind) AV {
 		if !a.Finite() || a.empty() {
 			return TopAV(k)
 		}
+		// a float whose integral part is not an int64 converts to an implementation-defined
+		// integer (MinInt64 on amd64): nothing is known about the result. 2^63 itself — what
+		// float64(MaxInt64) rounds to — is already outside.
+		if a.Lo < -math.Ldexp(1, 63) || a.Hi >= math.Ldexp(1, 63) {
+			return TopAV(k)
+		}
 		return normInt(AV{Lo: math.Trunc(a.Lo), Hi: math.Trunc(a.Hi)})
 	case KFloat:
 		if !sok {
@@ -620,6 +626,9 @@ func (e *Bounds) convert(x *ssa.Convert, fr *frame, k Kind) AV {
 		}
 		if math.IsInf(hi, 1) {
 			hi = math.Ldexp(1, 64)
+			if b, ok := x.X.Type().Underlying().(*types.Basic); ok && b.Info()&types.IsUnsigned == 0 {
+				hi = math.Ldexp(1, 63) // float64(MaxInt64) rounds up to 2^63
+			}
 		}
 		return AV{Lo: lo, Hi: hi}
 	}
